@@ -26,6 +26,9 @@ def nontrivial(sc, tr):
 def run(tier, seed):
     rng = random.Random(seed)
     chk = dplib.DataPathCheck(PROP, tier, seed)
+    # the v2 batch itself against BatchKernel.tla: every exported operation sequence replayed on the real type
+    from checks import batch_model
+    batch_model.run(chk, tier == "quick")
     c01.standard_families(chk, tier, seed, rng, nrand_quick=100, nrand_thorough=3000, matrix=(2, False))
     n = 60 if tier == "quick" else 1500
     chk.run(c04.order_scenarios("v1", rng, n) + c04.order_scenarios("v2", rng, n), name="order")
@@ -36,7 +39,7 @@ def run(tier, seed):
                       "as C01 plus the order-stress family and the holes family (one batch of 5..9 records through two chained "
                       "processors, every subset of one or two records taken out by the first one); non-trivial = >= 2 writes and (fan-out, merged sources, "
                       "parallel workers or a non-pass processor result); distinct = distinct write log",
-                      c01.ASSUMPTIONS)
+                      c01.ASSUMPTIONS, extra={"batch_kernel": chk.batch_kernel})
 
 
 def replay(path):
